@@ -247,9 +247,23 @@ func (eq *externalBaseQueue) Worker() Worker {
 	return eq.w
 }
 
+// purgeValuer is implemented by queues that can hand out their contents and clear
+// themselves in one atomic step.
+type purgeValuer interface {
+	PurgeValues() []any
+}
+
 func (eq *externalBaseQueue) Purge() {
-	prevValues := eq.q.Values()
-	eq.q.Purge()
+	var prevValues []any
+
+	if pv, ok := eq.q.(purgeValuer); ok {
+		prevValues = pv.PurgeValues()
+	} else {
+		// Values followed by Purge: a job enqueued in between is dropped without being
+		// closed; queues that care provide PurgeValues.
+		prevValues = eq.q.Values()
+		eq.q.Purge()
+	}
 
 	// close all pending channels to avoid routine leaks
 	for _, val := range prevValues {
